@@ -170,6 +170,12 @@ def fromVector (im : Img Arr) (v : Chans) : Img Arr :=
   | some m => if m.bits.all id then ⟨⟨im.pixels.shape, v⟩, some m, im.lms⟩
               else ⟨⟨im.pixels.shape, v.map (scatter 0 m.bits)⟩, some m, im.lms⟩
 
+/-- the result of `x.copy()`: a freshly allocated array.  A function whose Lean type promises `Fresh P` cannot return its
+argument itself: a dropped `.copy()` makes the translated definition ill-typed (the values are the same either way; WHICH
+buffer holds them is otherwise invisible to the value-level translation) -/
+structure Fresh (P : Type) where
+  val : P
+
 /-! ## 3. list plumbing of `gradient` / `gaussian_filter` / `igo` / `es` -/
 
 /-- `l[i::n]` (countdown `k` to the next element taken) -/
